@@ -53,6 +53,7 @@ package balanced
 import (
 	"errors"
 
+	dag "github.com/ipfs/boxo/ipld/merkledag"
 	ft "github.com/ipfs/boxo/ipld/unixfs"
 	h "github.com/ipfs/boxo/ipld/unixfs/importer/helpers"
 	ipld "github.com/ipfs/go-ipld-format"
@@ -146,6 +147,15 @@ func Layout(db *h.DagBuilderHelper) (ipld.Node, error) {
 	}
 
 	if db.HasFileAttributes() {
+		// Mode and mtime are stored in the UnixFS data of the root. With raw
+		// leaves a file of at most one chunk has a bare raw block as root,
+		// which cannot carry them: represent it as a UnixFS file node.
+		if raw, ok := root.(*dag.RawNode); ok {
+			root, err = wrapRawRoot(db, raw)
+			if err != nil {
+				return nil, err
+			}
+		}
 		err = db.SetFileAttributes(root)
 		if err != nil {
 			return nil, err
@@ -153,6 +163,18 @@ func Layout(db *h.DagBuilderHelper) (ipld.Node, error) {
 	}
 
 	return root, db.Add(root)
+}
+
+// wrapRawRoot returns a UnixFS file node that links to the given raw leaf
+// (or has no links if the leaf is empty), like the root of a multi-chunk file.
+func wrapRawRoot(db *h.DagBuilderHelper, leaf *dag.RawNode) (ipld.Node, error) {
+	root := db.NewFSNodeOverDag(ft.TFile)
+	if size := uint64(len(leaf.RawData())); size > 0 {
+		if err := root.AddChild(leaf, size, db); err != nil {
+			return nil, err
+		}
+	}
+	return root.Commit()
 }
 
 func layoutData(db *h.DagBuilderHelper) (ipld.Node, error) {
